@@ -29,10 +29,11 @@ from urllib.parse import unquote, unquote_to_bytes
 
 DIGITS = b"1234567890" * 500            # 5000 digits
 NEST = b"[" * 2000                      # deeply nested JSON array
+MANY = b"&k=v" * 1500                  # a body / query with thousands of fields
 DICTIONARY = [b"\x00", b"\xff", b"%", b"%00", b"..", b"[", b"]", b";", b'"', b"=", DIGITS, b"charset=x",
               b"charset=utf-16", b"boundary=", b"W/", b"bytes=", b"-", b",", b"://", b"[::1", b"\r", NEST,
               # a few more in the same spirit
-              b"%ff", b"/", b":", b";charset=undefined", b"\r\n", b" ", b"x"]
+              b"%ff", b"/", b":", b";charset=undefined", b"\r\n", b" ", b"x", MANY]
 _D = {name: DICTIONARY.index(v) for name, v in
       [("nul", b"\x00"), ("ff", b"\xff"), ("pct", b"%"), ("pct00", b"%00"), ("dots", b".."), ("lb", b"["), ("rb", b"]"),
        ("semi", b";"), ("quote", b'"'), ("eq", b"="), ("digits", DIGITS), ("csx", b"charset=x"), ("cs16", b"charset=utf-16"),
@@ -345,6 +346,8 @@ def payload_name(idx):
         return "<5000 digits>"
     if v is NEST:
         return "<'['*2000>"
+    if v is MANY:
+        return "<'&k=v'*1500>"
     return repr(v)
 
 
